@@ -268,8 +268,11 @@ func genWireComp(c *choice.Ctx, idx int) (*mcbor.Node, *refmodel.Comp, int, []st
 	}
 	field(1, "mtype", compTextClasses(func(sc *refmodel.Comp, s string) { sc.MType = sp(s) }))
 	field(2, "mval", compHashClasses(byte(idx)*16+1, func(sc *refmodel.Comp, b []byte) { sc.MVal = bp(b) }))
-	if c.Choose(fmt.Sprintf("comp%d.unknown-key-3", idx), 2) == 1 {
+	switch c.Choose(fmt.Sprintf("comp%d.unknown-key-3", idx), 3) {
+	case 1:
 		m.Put(mcbor.U(3), mcbor.T("ignored"))
+	case 2:
+		m.Put(mcbor.U(3), mcbor.A(mcbor.A(mcbor.M(mcbor.U(0), mcbor.A(mcbor.U(1))))))
 	}
 	field(4, "version", compTextClasses(func(sc *refmodel.Comp, s string) { sc.Version = sp(s) }))
 	field(5, "signer", compHashClasses(byte(idx)*16+2, func(sc *refmodel.Comp, b []byte) { sc.Signer = bp(b) }))
@@ -337,6 +340,13 @@ func genWireToken(c *choice.Ctx, p int, variant int) *wireToken {
 			{"tstr-canonical", func() *mcbor.Node { return mcbor.T(refmodel.P2Name) }, wOK, func(a *refmodel.Claims) { a.Profile = sp(refmodel.P2Name) }},
 			absentCls(wBad, nil),
 			{"tstr-unknown-url", func() *mcbor.Node { return mcbor.T("http://other.example/p") }, wBad, nil},
+			{"tstr-scheme-uppercase", func() *mcbor.Node { return mcbor.T("HTTP://arm.com/psa/2.0.0") }, wBad, nil},
+			{"tstr-host-uppercase", func() *mcbor.Node { return mcbor.T("http://ARM.com/psa/2.0.0") }, wBad, nil},
+			{"tstr-empty-fragment", func() *mcbor.Node { return mcbor.T("http://arm.com/psa/2.0.0#") }, wBad, nil},
+			{"tstr-trailing-slash", func() *mcbor.Node { return mcbor.T("http://arm.com/psa/2.0.0/") }, wBad, nil},
+			{"tstr-trailing-space", func() *mcbor.Node { return mcbor.T("http://arm.com/psa/2.0.0 ") }, wBad, nil},
+			{"tstr-percent-encoded", func() *mcbor.Node { return mcbor.T("http://arm.com/psa/2%2E0.0") }, wBad, nil},
+			{"tstr-empty", func() *mcbor.Node { return mcbor.T("") }, wOpen, nil},
 			{"null", mcbor.Null, wBad, nil},
 			{"bstr-oid", func() *mcbor.Node { return mcbor.B([]byte{0x2b, 6, 1, 4}) }, wBad, nil},
 			{"uint", func() *mcbor.Node { return mcbor.U(2) }, wBad, nil},
@@ -548,7 +558,7 @@ func genWireToken(c *choice.Ctx, p int, variant int) *wireToken {
 		emit(k.vsi, "vsi", cls)
 	}
 	// extra keys and map-level shape
-	xk := c.Choose("extra-keys", 7)
+	xk := c.Choose("extra-keys", 11)
 	if xk != 0 {
 		t.devs = append(t.devs, fmt.Sprintf("extra-keys=%d", xk))
 	}
@@ -565,6 +575,19 @@ func genWireToken(c *choice.Ctx, p int, variant int) *wireToken {
 		t.tree.Put(mcbor.I(o.nonce), mcbor.U(0))
 	case 5:
 		t.tree.Pairs = append([][2]*mcbor.Node{{mcbor.U(9999), mcbor.Tg(1, mcbor.U(0))}, {mcbor.I(-99999), mcbor.F(1.5, 8)}}, t.tree.Pairs...)
+	case 7, 8, 9: // deeply nested value under an unknown key (4, 8 and 16 levels)
+		depth := map[int]int{7: 4, 8: 8, 9: 16}[xk]
+		v := mcbor.U(1)
+		for i := 0; i < depth; i++ {
+			if i%2 == 0 {
+				v = mcbor.A(v)
+			} else {
+				v = mcbor.M(mcbor.U(0), v)
+			}
+		}
+		t.tree.Put(mcbor.U(9999), v)
+	case 10: // unknown text and integer keys with large / structured values, placed first
+		t.tree.Pairs = append([][2]*mcbor.Node{{mcbor.T("vendor-extension"), mcbor.M(mcbor.T("a"), mcbor.A(mcbor.B(pat(300, 1)), mcbor.F(2.5, 4)))}, {mcbor.U(1 << 40), mcbor.Tg(37, mcbor.B(pat(16, 2)))}}, t.tree.Pairs...)
 	case 6: // a byte-string key is outside the claim-key space (integers / text): no verdict
 		t.tree.Put(mcbor.B([]byte{1}), mcbor.U(1))
 		t.st = wOpen
